@@ -316,8 +316,13 @@ def run(ctx):
                     for n in ast.walk(v):
                         if isinstance(n, ast.Subscript) and isinstance(n.value, ast.Name) and n.value.id == "parameters":
                             okp, param = const_str(ctx, fn.module, n.slice)
-                    if isinstance(v, ast.Name) and v.id == "app_package_name":
-                        param = "app"
+                    if isinstance(v, ast.Name) and param is None:
+                        # value is a local derived from parameters["x"]
+                        for a in walk_own(fn.node):
+                            if isinstance(a, ast.Assign) and any(isinstance(t, ast.Name) and t.id == v.id for t in a.targets):
+                                for n in ast.walk(a.value):
+                                    if isinstance(n, ast.Subscript) and isinstance(n.value, ast.Name) and n.value.id == "parameters":
+                                        okp, param = const_str(ctx, fn.module, n.slice)
                     if isinstance(v, ast.Constant) and key == "odk:track-changes-reasons":
                         param = "track-changes-reasons"
                     if oks and okk and param:
